@@ -136,7 +136,17 @@ def classify_sanitizer(stderr):
 ARITH_UBSAN = ("signed integer overflow", "shift exponent", "left shift", "outside the range of representable values")
 
 
-def run_tool(argv, cwd, root=None, plan=None, clock=None, env=None, san=False, preload=(), stdin=None, wall=WALL_LIMIT):
+def run_tool(argv, cwd, root=None, plan=None, clock=None, env=None, san=False, preload=(), stdin=None, wall=WALL_LIMIT, confirm_timeout=True):
+    """See _run_tool.  A run that exceeds the wall limit is executed once more with three times the limit before it
+    counts as a hang: the limit exists to detect non-termination, not slowness on a loaded machine."""
+    r = _run_tool(argv, cwd, root, plan, clock, env, san, preload, stdin, wall)
+    if r.timeout and confirm_timeout and r.signal != signal.SIGXCPU:
+        r2 = _run_tool(argv, cwd, root, plan, clock, env, san, preload, stdin, wall * 3)
+        return r2
+    return r
+
+
+def _run_tool(argv, cwd, root=None, plan=None, clock=None, env=None, san=False, preload=(), stdin=None, wall=WALL_LIMIT):
     """Runs one real tool process under the SimOS shim.
 
     root   scratch tree the shim acts on (None: shim inactive)
@@ -194,7 +204,7 @@ def run_tool(argv, cwd, root=None, plan=None, clock=None, env=None, san=False, p
     return r
 
 
-OUTPUT_CAP = 16 << 20
+OUTPUT_CAP = 48 << 20
 
 
 def _drain(p, wall):
